@@ -13,6 +13,13 @@ from ..util import names_in
 
 def run(ctx, col, tier):
     repo = ctx.repo
+    col.rule("R-MEMO", "nothing computed from the tree is kept on the tree / node / path / branch object: outside construction and setters no "
+             "method of these classes stores to self -- copies are deep and topology and coordinates are then edited in place (re-rooting, "
+             "concatenation, node setters, transforms), so a kept decomposition or measure describes the tree before the edit; zero expected, "
+             "positive examples are those of the transform-state lint", floor=1)
+    from ..rules import stateless as _stateless
+    _stateless.check_memo(ctx, col, "R-MEMO", ("swcgeom.core.tree", "swcgeom.core.path", "swcgeom.core.node", "swcgeom.core.branch",
+                                               "swcgeom.core.compartment", "swcgeom.core.branch_tree", "swcgeom.core.swc", "swcgeom.core.segment"))
     col.rule("R-SPACE", "index-space typing of every view construction in the package: the index "
              "arguments of Node/Path/Branch/Compartment(attach, ...) are positions in `attach`; an "
              "`.id`/`.pid` read from a node of a view is an id of the view's owner, not a position "
